@@ -497,6 +497,17 @@ def d56():
   return 'Device bounds given as an unsigned-integer array with low 2 > high 1 are accepted (hbounds - lbounds wraps around): lbounds %s hbounds %s' % (d.lbounds, d.hbounds)
 
 
+def d57():
+  a = ADevice('a', 2, (0, 4), constraints=[{'type': 'ineq', 'fun': lambda x: x[0] - 0.5}])
+  s = DeviceSet('root', [a, Device('b', 2, (0, 4))])
+  x = np.array([[1., 4.], [2., 2.]])
+  alone = np.atleast_1d(a.constraints[-1]['fun'](x[0]))
+  intree = np.atleast_1d(s.constraints[0]['fun'](x.flatten()))
+  if alone.shape != intree.shape or not np.allclose(alone, intree):
+    return 'an ADevice user constraint x[0] - 0.5 is %s on the device alone but %s inside a DeviceSet (it is handed the raw (1, n) row slice)' % (alone, intree)
+  return None
+
+
 if __name__ == '__main__':
   names = [a for a in sys.argv[2:]] or sorted(k for k in globals() if k[0] == 'd' and k[1:3].isdigit())
   bad = 0
